@@ -9,6 +9,7 @@ package main
 import (
 	"bytes"
 	"fmt"
+	"go.dedis.ch/kyber/v4/util/key"
 	"os"
 	"sync"
 	"sync/atomic"
@@ -256,6 +257,26 @@ func raceSchemeScenarios() []raceScenario {
 					return fmt.Sprint(len(b), z)
 				}, "48 false"
 			}},
+			raceScenario{"suite", "RandomStream", gname, func() (func() string, string) {
+				// every goroutine asks the shared suite for its stream and draws from it
+				return func() string {
+					b := make([]byte, 24)
+					s.RandomStream().XORKeyStream(b, b)
+					z := true
+					for _, v := range b {
+						if v != 0 {
+							z = false
+						}
+					}
+					return fmt.Sprint(len(b), z)
+				}, "24 false"
+			}},
+			raceScenario{"suite", "key.NewKeyPair", gname, func() (func() string, string) {
+				return func() string {
+					kp := key.NewKeyPair(s)
+					return fmt.Sprint(kp.Public.Equal(s.Point().Mul(kp.Private, nil)))
+				}, "true"
+			}},
 			raceScenario{"suite", "Hash", gname, func() (func() string, string) {
 				f := func() string { h := s.Hash(); h.Write(msg); return kc.HexB(h.Sum(nil)) }
 				return f, f()
@@ -322,6 +343,33 @@ func raceSchemeScenarios() []raceScenario {
 			f := func() string {
 				c := m.Clone()
 				return kc.HexB(c.Mask()) + fmt.Sprint(c.CountEnabled())
+			}
+			return f, f()
+		}})
+	}
+	// BDN: clones of one shared mask, each with its own bits, aggregated concurrently
+	for _, p := range groups.Pairings() {
+		p := p
+		out = append(out, raceScenario{"bdn", "Mask.Clone+AggregatePublicKeys", p.Name, func() (func() string, string) {
+			var pubs []kyber.Point
+			for i := 0; i < 5; i++ {
+				pubs = append(pubs, p.G2.Group.Point().Mul(p.G2.Group.Scalar().Pick(kc.NewRng(uint64(40+i))), nil))
+			}
+			base, err := bdn.NewMask(p.G2.Group, pubs, nil)
+			if err != nil {
+				return nil, ""
+			}
+			base.SetBit(0, true)
+			scheme := bdn.NewSchemeOnG1(p.Suite)
+			f := func() string {
+				c := base.Clone()
+				c.SetBit(2, true)
+				c.SetBit(4, true)
+				agg, err := scheme.AggregatePublicKeys(c)
+				if err != nil {
+					return "err"
+				}
+				return rmar(agg)
 			}
 			return f, f()
 		}})
